@@ -29,10 +29,10 @@ func (l *recLogger) Append(c commit.Commit) error {
 		task = l.who()
 	}
 	cl := c.Clone()
-	if l.onAppend != nil {
-		l.onAppend()
-	}
 	l.mu.Lock()
+	if l.onAppend != nil {
+		l.onAppend() // under the lock: the i-th call belongs to the i-th recorded commit
+	}
 	l.commits = append(l.commits, recCommit{ID: c.ID, Chunk: c.Chunk, Clone: cl, Task: task, Seq: len(l.commits)})
 	l.mu.Unlock()
 	return nil
